@@ -654,6 +654,33 @@ func init() {
 			return Val{T: e.sc.define("mv", "Slice", "(mk_slice "+ref+" 0 "+ln+" "+ln+")"), S: "Slice", GoT: r}, true
 		}
 	}
+	// maps.Copy(dst, src): afterwards dst has every key of dst or src; a key of src carries src's value, any other key
+	// keeps dst's value
+	mapsCopy := func(e *Engine, fc *fnCtx, st *State, c *ssa.CallCommon, a []Val, r types.Type) (Val, bool) {
+		m, ok := c.Args[0].Type().Underlying().(*types.Map)
+		if !ok {
+			return Val{}, false
+		}
+		vh, vs, dh, ds := e.mapHeapNames(m)
+		ks, es := e.sortOf(m.Key()), e.sortOf(m.Elem())
+		dst, src := a[0].T, a[1].T
+		e.addObl(fc.fn, "nilmap-write", e.srcText(c.Pos(), "call"), c.Pos(), and(st.Reach, "(not (= "+src+" 0))"), "(not (= "+dst+" 0))")
+		hd, hv := e.heapIn(st, dh, ds), e.heapIn(st, vh, vs)
+		srcDom := func(k string) string { return "(and (not (= " + src + " 0)) (select " + sel(hd, src) + " " + k + "))" }
+		nd := e.sc.declareConst("mc_dom", "(Array "+ks+" Bool)")
+		nv := e.sc.declareConst("mc_val", "(Array "+ks+" "+es+")")
+		e.assume(st, and(
+			"(forall ((k "+ks+")) (! (= (select "+nd+" k) (or (select "+sel(hd, dst)+" k) "+srcDom("k")+")) :pattern ((select "+nd+" k))))",
+			"(forall ((k "+ks+")) (! (= (select "+nv+" k) (ite "+srcDom("k")+" (select "+sel(hv, src)+" k) (select "+sel(hv, dst)+" k))) :pattern ((select "+nv+" k))))"))
+		e.setHeapIn(st, dh, ds, store(hd, dst, nd))
+		e.setHeapIn(st, vh, vs, store(hv, dst, nv))
+		e.logStore(vh, dst)
+		e.logStore(dh, dst)
+		e.w.Trusted["maps.Copy: dst gets every entry of src, its other entries stay"] = true
+		return Val{S: "Tuple"}, true
+	}
+	H["maps.Copy"] = mapsCopy
+	H["golang.org/x/exp/maps.Copy"] = mapsCopy
 	H["golang.org/x/exp/maps.Values"] = mapsCollect(true)
 	H["golang.org/x/exp/maps.Keys"] = mapsCollect(false)
 	// slices.SortFunc with a specified comparator: the result is a sorted permutation of the input
